@@ -196,6 +196,10 @@ def setup():
     os.makedirs(os.path.join(boot.VERIF, "work"), exist_ok=True)
     os.makedirs(os.path.join(boot.VERIF, "evidence"), exist_ok=True)
     os.makedirs(os.path.join(boot.VERIF, "replays"), exist_ok=True)
+    from . import echecks2
+
+    compiled = echecks2.build_probes()
+    print("probe:", "compiled with clang" if compiled else "python fallback")
     return selftest()
 
 
@@ -426,3 +430,112 @@ def c20(tier):
         "written by the real event logger, consolidated by EventsSummary, read back, re-read and re-consolidated; (b) every sample sequence of length 1-4 over {0,1,2,5} through ResourceMonitorAggregator; "
         "(c) every result set over {successful, failed(1), failed(2), canceled, missing}^n, n<=4 through JobSubmitter._handle_completion and ResultsSummary. non-trivial: more than one event/sample",
         E_ASSUMPTIONS)
+
+
+from . import echecks2  # noqa: E402,F401
+
+
+@check("C17")
+def c17(tier):
+    return modee.enum_check(
+        "C17", tier, ["c17_roundtrip", "c17_invalid"],
+        "cases: (a) the finite domain D17 (1-3 jobs; names over {unset,'a','job_1','7'} distinct; blocked_by = every DAG, blockers written as ints or strings; "
+        "8 optional-field vectors; 1-3 groups; plus all 16 lifecycle-command combinations) built through the public models, dumped, loaded with create_config_from_file, compared, dumped again, accepted by JobSubmitter.create; "
+        "(b) valid configurations (D17 with <=2 jobs and a 3-job slice) x 9 single invalidities + 2 valid controls, injected into the JSON file and run through the real `jade submit-jobs` as the login process over the simulated scheduler "
+        "(rejected with InvalidConfiguration and zero sbatch, or accepted with >=1 sbatch). non-trivial: more than one job, or an optional field / invalidity present",
+        E_ASSUMPTIONS)
+
+
+@check("C19")
+def c19(tier):
+    return modee.enum_check(
+        "C19", tier, ["c19_launch"],
+        "cases: job specifications = commands of <=2 (quick) / <=3 (thorough) tokens over a 12-token quoting/special-character alphabet with blank and blank-tab-blank separators, "
+        "cycled over the 4 append_* combinations and exit codes; all exit codes 0-255; 7 job-name shapes x 4 append_* combinations; the bare command. Each is executed by the real JobRunner/AsyncCliCommand with a REAL child process "
+        "(compiled probe that reports argv/env and exits with the requested code); argv is compared with shlex.split + documented suffixes, env, own stdout/stderr files, and the row read back through ResultsAggregator (name, exit code, hpc_job_id). "
+        "evaluations counts job specifications (run in batches of 24)",
+        E_ASSUMPTIONS + ["real child processes; SLURM_* variables set in the checking process's environment"])
+
+
+# ------------------------------------------------------------------------------ C07
+G2_VARIANT = dict(slurm={"partition": "p2", "qos": "high"}, nproc=2, distributed=False, verbose=True,
+                  job_prefix="other")
+
+
+def c07_tasks(ns, tier):
+    """Grid with group-specific parameters: the second group differs in SLURM fields and run options."""
+    tasks = []
+    for n in ns:
+        for gi, bb in enumerate(S.dags(n)):
+            grid = param_grid(n, max_nodes=(1, None) if n >= 3 else (1, 2, None),
+                              caps=(2, 3) if n < 4 else (3,))
+            for tag, gkw, est in grid:
+                assigns = group_assignments(n, 2 if n > 1 else 1)
+                if n >= 4:
+                    assigns = assigns[:1] + ([assigns[5]] if est is None else [])
+                for a in assigns:
+                    if max(a) > 0 and not gkw.get("try_add", True) and n >= 3:
+                        continue
+                    sc = mk_scen(bb, gkw, est=est, assign=a)
+                    if len(sc["groups"]) > 1:
+                        g2 = sc["groups"][1]
+                        g2.update(G2_VARIANT)
+                        if not gkw.get("time_based"):
+                            g2["size"] = max(1, gkw["size"] - 1)
+                        else:
+                            g2["nproc"] = 1
+                            g2["walltime"] = "0:03:00" if gkw["walltime"] == "0:02:00" else "0:02:00"
+                    # node-side try-submit of a non-distributed group does not run: keep recovery
+                    tasks.append(dict(id=f"g{n}.{gi}-{tag}-a{''.join(map(str, a))}", scen=sc,
+                                      oracles=["Obs", "C07", "FirstRound"], budget=(0, 0), cls=_cls(bb, gkw, a)))
+    return tasks
+
+
+def _dry_twin(task, first_round):
+    import copy
+
+    t = copy.deepcopy(task)
+    for g in t["scen"]["groups"]:
+        g["dry_run"] = True
+    t["scen"]["actors"] = []
+    t["scen"]["expect_batches"] = {str(k): list(v) for k, v in first_round.items()}
+    t["oracles"] = ["Obs", "C07Dry"]
+    t["id"] += "-dry"
+    return t
+
+
+def _first_round_task(task):
+    """Worker: run the default execution of `task`, return its first-round batches."""
+    from .run import _mk
+
+    boot.quiet()
+    boot.mute_stdio()
+    try:
+        ex = Explorer(_mk(task), budget=(0, 0), cache=False)
+        x = ex.execute(())
+        fr = (x.final or {}).get("first_round")
+    finally:
+        boot.unmute_stdio()
+    return task, fr
+
+
+@check("C07")
+def c07(tier):
+    ns = (1, 2, 3) if tier == "quick" else (1, 2, 3, 4)
+    tasks = c07_tasks(ns, tier)
+    # dry-run twins: expectation = the first round of the real run (computed by running it)
+    step = 3 if tier == "quick" else 2
+    base = [t for i, t in enumerate(tasks) if i % step == 0]
+    twins = []
+    errors = []
+    for t, fr in run_pool(_first_round_task, base):
+        if fr is None:
+            errors.append(t["id"])
+            continue
+        twins.append(_dry_twin(t, fr))
+    tasks = tasks + twins
+    bounds = (f"all DAGs on {ns} jobs x (count sizes 1..n | time-based estimates {{1,2}}^n x capacity 2/3 min) x try-add on/off x max-nodes x "
+              f"group assignments (second group with different SLURM fields, processes, distributed/verbose options, prefix); every batch of every round of the "
+              f"default schedule with all finish orders; dry-run twin of every {step}rd/nd scenario compared with the real first round")
+    return explore_check("C07", tier, tasks, S_RULE + "; C07 evaluates its oracle at every sbatch (all rounds reached) and on the files a dry run leaves",
+                         COMMON_ASSUMPTIONS, dict(bounds=bounds, dry_twins=len(twins), dry_twin_errors=errors[:5]))
